@@ -74,5 +74,5 @@ RoundTrip == kind = "value" => Dec(k, Enc(k, f)) = f
 LenAnnounced == kind = "value" => Len(Enc(k, f)) = HdrLen(k, Enc(k, f)) /\ Len(Enc(k, f)) >= FixLenOf(k)
 \* a byte string with reserved bits set decodes to the same value, and re-encoding clears exactly those bits
 Normalises == kind = "bytes" => Dec(k, bytes) = f /\ Enc(k, Dec(k, bytes)) = Enc(k, f)
-Emit == PrintT(<<"WIRE", ToJson([kind |-> kind, type |-> k, f |-> f, bytes |-> bytes])>>)
+Emit == PrintT(<<"WIRE", ToJson([kind |-> kind, type |-> k, f |-> f, bytes |-> bytes, enc |-> IF kind = "value" THEN Enc(k, f) ELSE bytes])>>)
 ====
